@@ -236,7 +236,13 @@ func (s RefCapsule2) Eval(p C2) RefEval2 {
 	if r > 0 {
 		e.Smooth = true
 		e.Normal = Scale2(d, 1/r)
-		e.Near = Add2(c, Scale2(d, s.R/r))
+		if e.Piece == 0 || e.Piece == 3 { // straight sides: the normal is +-perp(u) by definition
+			e.Normal = V2(-u.Y, u.X)
+			if e.Piece == 3 {
+				e.Normal = V2(u.Y, -u.X)
+			}
+		}
+		e.Near = Add2(c, Scale2(e.Normal, s.R))
 	} else {
 		e.Piece, e.Region = -1, "core"
 		e.Near = Add2(c, Scale2(V2(-u.Y, u.X), s.R))
